@@ -1015,7 +1015,11 @@ the two component resolvers (whose own kinds are `date_error_kinds` / `time_erro
   IMPOSSIBLE if either reports IMPOSSIBLE, else whatever the fall-back path yields — and that is
   NOT_ENOUGH only for a century-only ISO year group.
 In every case NOT_ENOUGH implies that the record does not hold a sufficient date and a sufficient
-time combination. -/
+time combination.
+(The last timestamp clause is stated RELATIVE TO THE MODEL function `from_timestamp_path` — it says which
+branch runs, not what the branch yields; what it yields is stated against the specification in
+`datetime_fallback_outcome`, `datetime_sound` and `datetime_complete_timestamp(_leap)`.  Which of
+IMPOSSIBLE / OUT_OF_RANGE the fall-back reports is not characterised.) -/
 theorem datetime_error_kinds (p : Parsed) (hp : InType p) (off : Int)
     (hoff : -2147483648 ≤ off ∧ off ≤ 2147483647) :
     ∃ rd, Parsed.to_naive_date p = .ok rd ∧
